@@ -23,7 +23,8 @@ ID = 'C07'
 BOUNDS = {
     'quick': 'grid size n1d along the partition axis: every value 1..24; nthread symbolic in [1,4096]; npartition None (default) '
              'or symbolic user value in [1, n1d]; coord in {0,1,2}; particle coordinate and offset free reals (box=1, '
-             'offset in [0, one cell]); stripes pairs: all pairs of one prange; _tsc_parallel schedule for npartition 1..8',
+             'offset in [0, one cell]); stripes pairs: all pairs of one prange; _tsc_parallel schedule for npartition 1..8'
+             '; also: wiring items N in {2,3}, npartition in {2,3}, nthread in {1,2}; thread count in force taken from the global numba state',
     'thorough': 'as quick with n1d 1..64 by the engine-derived row summary and n1d up to 1024 (powers of two, 3*2^k, neighbours) by '
                 'the closed-form row formula, which is cross-checked against the engine-derived summary for every n1d <= 24',
 }
